@@ -1,3 +1,4 @@
+import copy
 import warnings
 import numpy as np
 from .utils import _parse_to_list, _concatenate_to_array
@@ -121,8 +122,8 @@ def finite_difference(blk: Module, fromsig: Union[Signal, Iterable[Signal]] = No
                 else:
                     df_an[Iout] = df_an[Iout] + 1j * np.ones(shape)
 
-        # Set the output sensitivity
-        Sout.sensitivity = df_an[Iout]
+        # Set the output sensitivity (as a copy, because resetting may clear the sensitivity in-place)
+        Sout.sensitivity = copy.deepcopy(df_an[Iout])
 
         # Perform the analytical sensitivity calculation
         blk.sensitivity()
